@@ -18,7 +18,7 @@ def run(ck):
     P = scope.q_scope(ck, 5 if q else 6, 3, [2, 3]) + scope.q_scope(ck, 4, 5, [4])     # here "C" plays the role of k
     ck.exhaustive = True
     groups = [{"vals": g["vals"], "k": g["C"], "calls": [call("greedy", "iddict"), call("roundrobin", "iddict"), call("greedy", "list"), call("roundrobin", "list")]} for g in P]
-    fam = gen.part_families(ck.rng, 200 if q else 4000, maxn=12, maxv=30, maxk=5)
+    fam = gen.part_families(ck.rng, 200 if q else 15000, maxn=12, maxv=30, maxk=5)
     for g in fam:
         g["calls"] = [call("greedy", "iddict"), call("roundrobin", "iddict")]
         groups.append(g)
@@ -41,11 +41,11 @@ def run(ck):
         g = dict(g); g["orc"] = 0
         g["calls"] = [pcall(a, "iddict", extra=False) for a in COVERS]
         groups.append(g)
-    for g in gen.pack_families(ck.rng, 200 if q else 4000, maxn=14):
+    for g in gen.pack_families(ck.rng, 200 if q else 15000, maxn=14):
         g = dict(g); g["orc"] = 0
         g["calls"] = [pcall(a, "iddict", extra=False) for a in FIT4]
         groups.append(g)
-    for g in gen.cover_families(ck.rng, 300 if q else 6000, maxn=30):
+    for g in gen.cover_families(ck.rng, 300 if q else 20000, maxn=30):
         g = dict(g); g["orc"] = 0
         g["calls"] = [pcall(a, "iddict", extra=False) for a in COVERS]
         groups.append(g)
